@@ -2,8 +2,8 @@
    The two translation tables are regenerated from chython/algorithms/stereo.py on every run. *)
 From Coq Require Import ZArith List Bool.
 From Model Require Import PyBase Graph Stereo StereoRegistry StereoSmiles StereoFix StereoWedge StereoParse StereoChiral.
-From Gen Require Import StereoTables StereoConsts.
-From Proofs Require Import StereoProofs StereoRegistryProofs StereoRegistryDisjoint StereoSmilesProofs StereoFixProofs StereoWedgeProofs StereoParseProofs StereoChiralProofs StereoConstsProofs.
+From Gen Require Import StereoTables StereoConsts StereoBody StereoRegBody.
+From Proofs Require Import StereoProofs StereoRegistryProofs StereoRegistryDisjoint StereoSmilesProofs StereoFixProofs StereoWedgeProofs StereoParseProofs StereoChiralProofs StereoConstsProofs StereoBodyTie StereoRenumber StereoRegBodyTie StereoBodyTie2 StereoFixFuel.
 Import ListNotations.
 Open Scope Z_scope.
 
@@ -616,3 +616,200 @@ Theorem C12_acyclic_chiral_equivariant : forall (s : Z -> Z), (forall x y, s x =
   (forall c, In (s c) (c_a (acyclic_state (rn_reg s r) w')) <-> In c (c_a (acyclic_state r w))).
 Proof. exact acyclic_chiral_equivariant. Qed.
 Print Assumptions C12_acyclic_chiral_equivariant.
+
+(* ====================================================================================================================== *)
+(* ROUND 4: TIE BY TRANSLATION.  Gen.StereoBody is regenerated on every run (tools/gen_stereobody.py) from the statements of
+   stereo.py _pyramid_sign / _cis_trans_sign / _allene_sign (whole bodies), _translate_cis_trans_sign / _translate_allene_sign
+   (the if / elif chain that picks the table key and the table lookup), _translate_tetrahedron_sign (from `order = ...` to the end)
+   and of smiles.py postprocess_molecule (the first-atom rule).  The hand-written models equal the translated source for ALL inputs. *)
+Theorem C12_source_geometry_tied :
+  (forall n u v w, g_pyramid_sign n u v w = pyramid_sign n u v w) /\
+  (forall n u v w, g_cis_trans_sign n u v w = cis_trans_sign n u v w) /\
+  (forall mark u v w, g_allene_sign mark u v w = allene_sign mark u v w).
+Proof. exact (conj g_pyramid_sign_eq (conj g_cis_trans_sign_eq g_allene_sign_eq)). Qed.
+Print Assumptions C12_source_geometry_tied.
+
+Theorem C12_source_sign_chains_tied : forall (isH : Z -> bool) n0 n1 n2 n3 nn nm s,
+  g_ct_chain isH n0 n1 n2 n3 nn nm s = translate_env isH (n0, n1, n2, n3) nn nm s /\
+  g_al_chain isH n0 n1 n2 n3 nn nm s = translate_al isH (n0, n1, n2, n3) nn nm s.
+Proof. exact (fun isH n0 n1 n2 n3 nn nm s => conj (g_ct_chain_eq isH n0 n1 n2 n3 nn nm s) (g_al_chain_eq isH n0 n1 n2 n3 nn nm s)). Qed.
+Print Assumptions C12_source_sign_chains_tied.
+
+Theorem C12_source_tetrahedron_body_tied : forall (isH : Z -> bool) order env s,
+  g_th_body isH order env s = translate_th isH order env s.
+Proof. exact g_th_body_eq. Qed.
+Print Assumptions C12_source_tetrahedron_body_tied.
+
+(* the reader's first-atom rule as written in the source: the mark that is translated is the written one xor
+   (implicit H and every neighbour at a LATER POSITION of the string) -- positions, not atom numbers: the atom-map numbers of a
+   mapped SMILES do not enter; and it is the rule of Model.StereoSmiles.read_th with nopred taken over positions *)
+Theorem C12_source_first_atom_rule :
+  (forall hasH i ord_i mark, g_read_mark hasH i ord_i mark = xorb mark (hasH && forallb (fun m => i <? m) ord_i)) /\
+  (forall (isH : Z -> bool) order adj hasH i ord_i mark,
+     translate_th isH order adj (g_read_mark hasH i ord_i mark) = read_th isH order adj mark hasH (nopred (fun x => x) i ord_i)).
+Proof. exact (conj g_read_mark_spec g_read_mark_eq). Qed.
+Print Assumptions C12_source_first_atom_rule.
+
+(* the sign laws of the property, stated for the translated source itself *)
+Theorem C12_source_th_parity : forall (isH : Z -> bool) s,
+  (forall a b c d p, NoDup [a; b; c; d] -> In p perms4 ->
+     g_th_body isH [a; b; c; d] (sel [a; b; c; d] p) s = Ok (xorb s (odd_perm p)) /\
+     g_th_body isH [a; b; c; d] (firstn 3 (sel [a; b; c; d] p)) s = Ok (xorb s (odd_perm p))) /\
+  (forall a b c h p, NoDup [a; b; c; h] -> isH a = false -> isH b = false -> isH c = false -> isH h = true -> In p perms4 ->
+     g_th_body isH [a; b; c] (sel [a; b; c; h] p) s = Ok (xorb s (odd_perm p))) /\
+  (forall a b c q, NoDup [a; b; c] -> In q perms3 ->
+     g_th_body isH [a; b; c] (sel [a; b; c] q) s = Ok (xorb s (odd_perm (q ++ [3])))).
+Proof. exact source_th_parity. Qed.
+Print Assumptions C12_source_th_parity.
+
+Theorem C12_source_exchange_laws : forall (isH : Z -> bool) n0 n1 n2 n3 s, NoDup [n0; n1; n2; n3] ->
+  (forall b, In b [1; 3] ->
+     exists r, g_ct_chain isH n0 n1 (Some n2) (Some n3) (pick (n0, n1, n2, n3) 0) (pick (n0, n1, n2, n3) b) s = Ok r /\
+               g_ct_chain isH n0 n1 (Some n2) (Some n3) (pick (n0, n1, n2, n3) 2) (pick (n0, n1, n2, n3) b) s = Ok (negb r) /\
+               g_al_chain isH n0 n1 (Some n2) (Some n3) (pick (n0, n1, n2, n3) 0) (pick (n0, n1, n2, n3) b) s = Ok r /\
+               g_al_chain isH n0 n1 (Some n2) (Some n3) (pick (n0, n1, n2, n3) 2) (pick (n0, n1, n2, n3) b) s = Ok (negb r)) /\
+  (forall a b, In a [0; 2] -> In b [1; 3] ->
+     g_ct_chain isH n0 n1 (Some n2) (Some n3) (pick (n0, n1, n2, n3) a) (pick (n0, n1, n2, n3) b) s =
+     g_ct_chain isH n0 n1 (Some n2) (Some n3) (pick (n0, n1, n2, n3) b) (pick (n0, n1, n2, n3) a) s).
+Proof. exact source_exchange_laws. Qed.
+Print Assumptions C12_source_exchange_laws.
+
+Theorem C12_source_geometry_laws :
+  (forall n u v w, g_pyramid_sign n v u w = - g_pyramid_sign n u v w /\ g_pyramid_sign n v w u = g_pyramid_sign n u v w) /\
+  (forall n u v w, g_cis_trans_sign w v u n = g_cis_trans_sign n u v w) /\
+  (forall mark a b c, g_allene_sign (- mark) a b c = - g_allene_sign mark a b c).
+Proof. exact source_geometry_laws. Qed.
+Print Assumptions C12_source_geometry_laws.
+
+(* non-vacuity: the translated bodies compute *)
+Theorem C12_source_example :
+  g_th_body (fun _ => false) [1; 3; 4; 5] [3; 1; 4; 5] true = Ok false /\
+  g_th_body (fun x => x =? 9) [1; 3; 4] [9; 1; 3; 4] true = Ok false /\
+  g_ct_chain (fun _ => false) 1 4 (Some 5) None 5 4 true = Ok false /\
+  g_al_chain (fun x => x =? 9) 1 4 None None 9 4 true = Ok false /\
+  g_pyramid_sign (0, 0, 1) (1, 0, 0) (0, 1, 0) (0, 0, 0) = -1 /\
+  g_read_mark true 0 [1; 2; 3] true = false /\ g_read_mark true 1 [0; 2; 3] true = true.
+Proof. vm_compute. repeat split; reflexivity. Qed.
+Print Assumptions C12_source_example.
+
+(* ====================================================================================================================== *)
+(* ROUND 4: NUMBERING INDEPENDENCE OF STORED SIGNS (was: search only).  For every injective renumbering f of the atoms (Graph.remap;
+   the atom-map numbers of a mapped SMILES) and hydrogen predicates that correspond (isH' (f x) = isH x), each sign translation on the
+   renumbered arguments gives the result of the original arguments -- every order, every neighbour list incl. malformed ones
+   (the same exception is raised) *)
+Theorem C12_sign_translation_renumber : forall (f : Z -> Z), (forall x y, f x = f y -> x = y) ->
+  forall (isH isH' : Z -> bool), (forall x, isH' (f x) = isH x) ->
+  (forall order env s, translate_th isH' (map f order) (map f env) s = translate_th isH order env s) /\
+  (forall e nn nm s, translate_env isH' (rn_env f e) (f nn) (f nm) s = translate_env isH e nn nm s) /\
+  (forall e1 e2 nn nm s, translate_ct isH' (option_map (rn_env f) e1) (option_map (rn_env f) e2) (f nn) (f nm) s = translate_ct isH e1 e2 nn nm s).
+Proof.
+  exact (fun f inj isH isH' H => conj (translate_th_renumber f inj isH isH' H)
+           (conj (translate_env_renumber f inj isH isH' H) (translate_ct_renumber f inj isH isH' H))).
+Qed.
+Print Assumptions C12_sign_translation_renumber.
+
+(* the SMILES reader and writer: the sign stored for / the mark written from renumbered neighbour lists is the one of the original
+   lists (the first-atom test and hasH are functions of the string, see C12_source_first_atom_rule) *)
+Theorem C12_smiles_marks_renumber : forall (f : Z -> Z), (forall x y, f x = f y -> x = y) ->
+  forall (isH isH' : Z -> bool), (forall x, isH' (f x) = isH x) ->
+  (forall order adj mark hasH np, read_th isH' (map f order) (map f adj) mark hasH np = read_th isH order adj mark hasH np) /\
+  (forall order adj s hasH first, write_th isH' (map f order) (map f adj) s hasH first = write_th isH order adj s hasH first) /\
+  (forall e a1 a2 mark hasH np, read_al isH' (rn_env f e) (map f a1) (map f a2) mark hasH np = read_al isH e a1 a2 mark hasH np) /\
+  (forall e a1 a2 s, write_al isH' (rn_env f e) (map f a1) (map f a2) s = write_al isH e a1 a2 s) /\
+  (forall e fwd n1 n2 s1 s2, read_ct isH' (rn_env f e) fwd (f n1) (f n2) s1 s2 = read_ct isH e fwd n1 n2 s1 s2) /\
+  (forall e kf v on base s, write_ct isH' (rn_env f e) kf (f v) (f on) base s = write_ct isH e kf v on base s).
+Proof.
+  exact (fun f inj isH isH' H => conj (read_th_renumber f inj isH isH' H) (conj (write_th_renumber f inj isH isH' H)
+           (conj (read_al_renumber f inj isH isH' H) (conj (write_al_renumber f inj isH isH' H)
+           (conj (read_ct_renumber f inj isH isH' H) (write_ct_renumber f inj isH isH' H)))))).
+Qed.
+Print Assumptions C12_smiles_marks_renumber.
+
+(* on molecules: with C12_registries_equivariant (the registries of rn_mol s g are the renumbered registries) a stored sign denotes the
+   same arrangement before and after Graph.remap *)
+Theorem C12_stored_sign_renumber : forall (s : Z -> Z), (forall x y, s x = s y -> x = y) -> forall (g : mol),
+  (forall order env sg, translate_th (is_h (rn_mol s g)) (map s order) (map s env) sg = translate_th (is_h g) order env sg) /\
+  (forall e1 e2 nn nm sg, translate_ct (is_h (rn_mol s g)) (option_map (rn_env s) e1) (option_map (rn_env s) e2) (s nn) (s nm) sg =
+                          translate_ct (is_h g) e1 e2 nn nm sg) /\
+  (forall e nn nm sg, translate_al (is_h (rn_mol s g)) (rn_env s e) (s nn) (s nm) sg = translate_al (is_h g) e nn nm sg).
+Proof. exact stored_sign_renumber. Qed.
+Print Assumptions C12_stored_sign_renumber.
+
+Theorem C12_renumber_example :
+  read_th (fun _ => false) [7; 9; 10] [7; 9; 10] true true false = Ok true /\
+  read_th (fun _ => false) (map ex_map [1; 3; 4]) (map ex_map [1; 3; 4]) true true false =
+  read_th (fun _ => false) [1; 3; 4] [1; 3; 4] true true false.
+Proof. exact renumber_example. Qed.
+Print Assumptions C12_renumber_example.
+
+(* ====================================================================================================================== *)
+(* ROUND 4: TIE BY TRANSLATION of the loop body of stereogenic_cumulenes (Gen.StereoRegBody, tools/gen_stereoreg.py): the four guards
+   (triple bond / ordinary-bonded metal at an end, second double bond at an end, more than three non-special neighbours), the
+   substituent lists and the stored environment.  The model equals the translated source on every path of `cumulenes`, so
+   C12_sg_cumulene_env, C12_substituents_spec and the derived-registry theorems speak about the translated source. *)
+Theorem C12_source_stereogenic_cumulenes_tied : forall (fs : Z -> bool) g path, (2 <= List.length path)%nat ->
+  g_sg_cum_entry fs g path = sg_cum_entry fs g path.
+Proof. exact g_sg_cum_entry_eq. Qed.
+Print Assumptions C12_source_stereogenic_cumulenes_tied.
+
+Theorem C12_source_stereogenic_cumulenes_registry : forall (fs fd : Z -> bool) g,
+  sg_cumulenes fs fd g = match cumulenes fd g with Ok ps => Ok (flat_map (g_sg_cum_entry fs g) ps) | Err e => Err e end.
+Proof. exact sg_cumulenes_translated. Qed.
+Print Assumptions C12_source_stereogenic_cumulenes_registry.
+
+Theorem C12_source_stereogenic_cumulenes_example :
+  g_sg_cum_entry (fun _ => true) ex_allene [2; 4; 5] = [([2; 4; 5], (1, 6, Some 3, Some 7))] /\
+  g_sg_cum_entry (fun _ => false) ex_allene [2; 4; 5] = [].
+Proof. exact translated_body_example. Qed.
+Print Assumptions C12_source_stereogenic_cumulenes_example.
+
+(* the loop bodies of tetrahedrons and stereogenic_tetrahedrons as translated (Gen.StereoRegBody): which atoms may carry a tetrahedral
+   label and in which order their neighbours are listed; C12_tetrahedrons_spec, C12_sg_tetrahedron_env, C12_sg_tetrahedron_hydrogens
+   therefore speak about the translated source *)
+Theorem C12_source_tetrahedrons_tied :
+  (forall g n a, g_tetra_entry g n a = if is_tetra g (n, a) then [n] else []) /\
+  (forall g, tetrahedrons g = flat_map (fun na => g_tetra_entry g (fst na) (snd na)) (m_atoms g)) /\
+  (forall (fs : Z -> bool) g n, g_sg_th_entry fs g n = sg_th_entry fs g n) /\
+  (forall (fs : Z -> bool) g,
+     sg_tetrahedrons fs g = flat_map (g_sg_th_entry fs g) (flat_map (fun na => g_tetra_entry g (fst na) (snd na)) (m_atoms g))).
+Proof. exact (conj g_tetra_entry_eq (conj tetrahedrons_translated (conj g_sg_th_entry_eq sg_tetrahedrons_translated))). Qed.
+Print Assumptions C12_source_tetrahedrons_tied.
+
+Theorem C12_source_tetrahedrons_example :
+  g_tetra_entry ex_th 2 (mkAtom 6 None 0 false (Some 0) None) = [2] /\ g_tetra_entry ex_th 2 (mkAtom 6 None 1 false (Some 0) None) = [] /\
+  g_tetra_entry ex_th 2 (mkAtom 7 None 0 false (Some 0) None) = [].
+Proof. exact translated_tetra_example. Qed.
+Print Assumptions C12_source_tetrahedrons_example.
+
+(* ====================================================================================================================== *)
+(* ROUND 4, continued *)
+
+(* the whole _translate_cis_trans_sign for a given sign as translated: registry lookup under either orientation of the key
+   (try / except KeyError), exchange of the ends, sign chain *)
+Theorem C12_source_cis_trans_sign_tied : forall (isH : Z -> bool) e1 e2 nn nm s,
+  g_ct_sign isH e1 e2 nn nm s = translate_ct isH e1 e2 nn nm s.
+Proof. exact g_ct_sign_eq. Qed.
+Print Assumptions C12_source_cis_trans_sign_tied.
+
+(* tetrahedral SMILES round trip with the reader's first-atom rule AS TRANSLATED, for arbitrary atom numbers (pos = position of an
+   atom in the string; a mapped SMILES has numbers unrelated to positions): the mark the writer emits is read back as the stored sign *)
+Theorem C12_source_reader_roundtrip_th : forall (isH : Z -> bool) order (pos : Z -> Z) n adj s hasH (is_start : bool) w,
+  (is_start = true -> forall m, In m adj -> pos n < pos m) ->
+  (is_start = false -> exists parent rest, adj = parent :: rest /\ pos parent < pos n) ->
+  write_th isH order adj s hasH is_start = Ok w ->
+  translate_th isH order adj (g_read_mark hasH (pos n) (map pos adj) w) = Ok s.
+Proof. exact source_reader_roundtrip_th. Qed.
+Print Assumptions C12_source_reader_roundtrip_th.
+
+(* FUEL: any two fuels that cover the saved labels give the same result, so the out-of-fuel exit of the loop model is never taken by
+   fix_stereo_labels: the modelled loop stops by itself, like the `while old_stereo:` loop of the code *)
+Theorem C12_fix_loop_fuel_irrelevant : forall (chiral : list label -> centre -> bool) fuel fuel' restored pending,
+  (List.length pending <= fuel)%nat -> (List.length pending <= fuel')%nat ->
+  fix_loop chiral fuel restored pending = fix_loop chiral fuel' restored pending.
+Proof. exact fix_loop_fuel_irrelevant. Qed.
+Print Assumptions C12_fix_loop_fuel_irrelevant.
+
+Theorem C12_fix_stereo_labels_fuel : forall (chiral : list label -> centre -> bool) r g extra,
+  fix_stereo_labels chiral r g = fix_loop chiral (S (List.length (collect r g)) + extra) [] (collect r g).
+Proof. exact fix_stereo_labels_fuel. Qed.
+Print Assumptions C12_fix_stereo_labels_fuel.
